@@ -296,7 +296,23 @@ fn canaries() {
     if ref_join(&a, &b2) != Err(Conflict::Comment("class")) { bad("reference accepts differing comments"); }
 }
 
+/// cases of the Miri slice the thorough tier asks for (measured: see NOTES.md)
+const MIRI_CASES: usize = 80;
+
+/// `c09 --miri-slice <seed> <cases> <max seconds>`: single-threaded, no files. The ordinary join and conflict cases (real `merge`,
+/// reference join, both projections, key invariant, injected conflicts) on small universes in which a third of the simple names
+/// are hostile (NUL, boundary / supplementary code points, descriptor letters, names of 40..1300 bytes); every fourth case carries
+/// lone surrogates in names and descriptors (U+FFFD of the model = a lone surrogate in both input trees).
+fn miri_slice(seed: u64, cases: usize, max_s: u64) -> i32 {
+    let cfg = maps::slice::small(GenCfg { comment_chance: (2, 5), absent: (1, 5), ..GenCfg::default() });
+    let nocom = GenCfg { comments: maps::CommentClass::None, ..cfg.clone() };
+    maps::slice::run("C09", seed, cases, max_s, 4, |rng, rep, i, _| {
+        if i % 3 == 2 { conflict_case(rng, rep, &cfg) } else { join_case(rng, rep, if i % 6 == 4 { &nocom } else { &cfg }) }
+    })
+}
+
 fn main() {
+    if let Some((seed, n, max_s)) = common::miri::slice_args() { std::process::exit(miri_slice(seed, n, max_s)); }
     let mut ctx = Ctx::from_args("C09", 40, 420);
     let replay = load_replay(&mut ctx);
     canaries();
@@ -323,6 +339,11 @@ fn main() {
             "conflict.injected.descriptor.field", "conflict.injected.descriptor.method", "conflict.injected.parameter_index.parameter", "conflict.refused"] {
             meta.oblige(format!("at least one case with {k}"), rep.get(k) > 0);
         }
+        if ctx.tier == Tier::Thorough {
+            let r = common::miri::run_slice(&ctx, "c09", env!("CARGO_MANIFEST_DIR"), MIRI_CASES, 170, 285);
+            if let Some(line) = r.ub { rep.cur = ("miri".into(), 0); rep.violation(format!("miri: {line}"), json!({"how": format!("cargo +nightly miri run --offline -p c09 -- --miri-slice <seed> {MIRI_CASES} 170"), "seed": ctx.seed as i64, "status": r.status})); }
+            meta.extra.insert("miri_slice".into(), json!(r.status));
+        } else { meta.extra.insert("miri_slice".into(), json!("not run in the quick tier")); }
     }
     std::process::exit(finish(&ctx, rep, meta));
 }
